@@ -217,6 +217,9 @@ func ruleC15Client(c *Ctx) {
 	}
 	// callers of owner functions
 	for name := range owners {
+		if name == fCli+"nextSeq" && c.P.Fn(name) == nil {
+			continue // written out in handleRequest
+		}
 		fn := c.Anchor(rule, name)
 		if fn == nil {
 			continue
@@ -283,6 +286,9 @@ func ruleC15Client(c *Ctx) {
 		if len(sends) == 1 && len(ins) == 1 && len(seqSt) == 1 {
 			if v := R.V(seqSt[0].(*ssa.Store).Val); v == fCli+"nextSeq($0)" {
 				c.OK(rule, FnName(fn)+" | fresh sequence number", c.P.InstrPos(seqSt[0]), "req.Seq = c.nextSeq()", false)
+			} else if incs := StoresTo(fn, "Client", "seq"); v == "$0.seq" && len(incs) == 1 && R.V(incs[0].(*ssa.Store).Val) == "(+$0.seq +1)" {
+				// the helper written out: c.seq++; req.Seq = c.seq
+				c.Guard(rule, fn, seqSt, "fresh sequence number", nil, Need{Desc: "c.seq incremented first", Instr: func(in ssa.Instruction) bool { return in == incs[0] }})
 			} else {
 				c.Bad(rule, FnName(fn)+" | fresh sequence number", c.P.InstrPos(seqSt[0]), "req.Seq = "+v, nil)
 			}
@@ -303,7 +309,7 @@ func ruleC15Client(c *Ctx) {
 			c.Bad(rule, FnName(fn)+" | structure", "", "handleRequest must assign Seq, insert into messages and queue the request", nil)
 		}
 	}
-	if fn := c.Anchor(rule, fCli+"nextSeq"); fn != nil {
+	if fn := c.P.Fn(fCli + "nextSeq"); fn != nil { // optional: may be written out in handleRequest
 		R := NewRenderer(fn)
 		st := StoresTo(fn, "Client", "seq")
 		okn := len(st) == 1 && R.V(st[0].(*ssa.Store).Val) == "(+$0.seq +1)"
@@ -538,8 +544,8 @@ func ruleC15Client(c *Ctx) {
 	}
 	if fn := c.Anchor(rule, fRSrv+"readWrite"); fn != nil {
 		R := NewRenderer(fn)
-		w := CallsTo(fn, fRSrv+"write")
-		if len(w) == 1 && callRender(R, w[0]) == fRSrv+"write($0,"+fWire+"Read($0.wire)#0)" {
+		w := CallsToW(fn, fWire+"Write")
+		if len(w) == 1 && renderVia(R, w[0], fWire+"Write") == fWire+"Write($0.wire,"+fWire+"Read($0.wire)#0)" {
 			c.OK(rule, FnName(fn)+" | replies with the request message itself", c.P.InstrPos(w[0]), "the message read (carrying Seq) is the message written back", false)
 		} else {
 			c.Bad(rule, FnName(fn)+" | replies with the request message itself", "", "the reply is not the received message", nil)
